@@ -829,19 +829,21 @@ String& String::replaceme(char a, char b)
 
 void String::split(const String& sep, Array<String>& out) const
 {
-	out.clear();
+	Array<String> parts; // filled first: this string or sep may be elements of out
 	int j=0, m=sep.length(), n=length();
 	for(int i=0; i<=n; i=j+m)
 	{
 		j=indexOf(sep, i);
 		if(j==-1) j=n;
-		out << substring(i, j);
+		parts << substring(i, j);
 	}
+	out.clear();
+	out.append(parts);
 }
 
-void String::split(Array<String>& a) const
+void String::split(Array<String>& out) const
 {
-	a.clear();
+	Array<String> a; // filled first: this string may be an element of out
 	const char* s = str();
 	for(int i=0; i<=length(); i++)
 	{
@@ -857,6 +859,8 @@ void String::split(Array<String>& a) const
 			}
 		}
 	}
+	out.clear();
+	out.append(a);
 }
 
 Dic<String> String::split(const String& sep1, const String& sep2) const
